@@ -8,6 +8,7 @@ resulting events are pushed back for future processing.
 import logging
 import time as _time
 from collections.abc import Callable
+from itertools import count
 from typing import TYPE_CHECKING
 
 from happysimulator.core.clock import Clock
@@ -15,6 +16,7 @@ from happysimulator.core.entity import Entity
 from happysimulator.core.event import (
     Event,
     _active_debugger_context,
+    _advance_event_counter,
     reset_event_counter,
 )
 from happysimulator.core.event_heap import EventHeap
@@ -281,11 +283,23 @@ class Simulation:
                 self._event_heap.size(),
             )
 
+        # Events created inside run() draw their sort index from the heap's own
+        # counter, events created outside of it from the global one. Let each
+        # continue where the other stopped, so that events with equal timestamps
+        # are always delivered in creation order.
+        heap = self._event_heap
+        heap._event_counter = count(
+            max(heap._event_counter.__next__(), _advance_event_counter())
+        )
+
         # Set active contexts so SimFuture.resolve()/fail() can schedule events
         # and so ProcessContinuation can access the code debugger.
-        with _active_sim_context(self._event_heap, self._clock):
+        with _active_sim_context(heap, self._clock):
             with _active_debugger_context(getattr(self, "_code_debugger", None)):
-                return self._run_loop()
+                try:
+                    return self._run_loop()
+                finally:
+                    _advance_event_counter(heap._event_counter.__next__())
 
     def _run_loop(self) -> SimulationSummary:
         """Inner loop extracted for clean active-context scoping."""
